@@ -65,7 +65,10 @@ def make(which, with_pref):
                     return S.project(it, u, G)
                 w0, w1 = weights(G0), weights(G1)
                 out0, out1 = S.matmul(it, w0, J), S.matmul(it, w1, J)
-            cx.oblige(f"{tag}.post", z3.If(small, same_term(v, out0), same_term(v, out1)))
+            cx.oblige(f"{tag}.post", z3.If(small, same_term(v, out0), same_term(v, out1)),
+                      numeric={"code": v.term, "cases": [(small, out0.term), (z3.Not(small), out1.term)],
+                               "call": {"cls": cls, "kwargs": {"pref_vector": pref.term if pref is not None else None, "norm_eps": a, "reg_eps": b},
+                                        "input": "J"}})
             cx.oblige(f"{tag}.dtype", v.dtype == J.dtype)
         H.explore(body)
     return Check(f"{which}.{'pref' if with_pref else 'default'}", [f"{cls}.__init__",
